@@ -77,6 +77,12 @@ func (e *Env) RImportRoles() {
 						continue
 					}
 					e.Run.Check("R-ROLE", key, pos(v), !un, "the store runs under «"+pc+"», which excludes `"+a+` == "_"`+"` for a package no identifier refers to: side-effect imports (`_ \"net/http/pprof\"`, database drivers) are dropped from the file")
+					// … and the other way round: a blank alias for a package that IS referred to is not
+					// taken over (the package needs a real name)
+					if un2, dec2 := unsatWith(orTrue(pc), a+` == "_" && packagesInUse[`+k+`]`); dec2 {
+						e.Run.Check("R-ROLE", fmt.Sprintf("updateImports: a blank alias is not taken over for a package the code refers to (%s)", types.ExprString(l)), pos(v), un2,
+							"the store runs under «"+pc+"», which allows `"+a+` == "_"`+"` for a package that identifiers refer to: the import stays blank, the package has no name in the file and its references are printed without a qualifier")
+					}
 				}
 				// (a2) importsRequired[path] = true inside the range over effectiveAlias
 				if ix, ok := isIndexOf(l, "importsRequired"); ok {
@@ -181,6 +187,70 @@ func (e *Env) RImportRoles() {
 		}
 		return true
 	})
+	// an existing spec whose alias differs from the chosen one is renamed: among the stores that
+	// give a spec of a declaration its name from aliases[…] one is reachable for a spec that has
+	// a name already
+	{
+		type nameStore struct {
+			pc, nameExpr string
+			at           ast.Node
+		}
+		var stores []nameStore
+		ast.Inspect(fd.Body, func(nd ast.Node) bool {
+			as, ok := nd.(*ast.AssignStmt)
+			if !ok || len(as.Lhs) != 1 || len(as.Rhs) != 1 {
+				return true
+			}
+			mentions := false
+			ast.Inspect(as.Rhs[0], func(m ast.Node) bool {
+				if ix, ok := m.(*ast.IndexExpr); ok && types.ExprString(ix.X) == "aliases" {
+					mentions = true
+				}
+				return true
+			})
+			if !mentions {
+				return true
+			}
+			// LHS: S.Name or S.Name.Name with S an import spec taken from a declaration's list
+			var specX ast.Expr
+			if se, ok := ast.Unparen(as.Lhs[0]).(*ast.SelectorExpr); ok && se.Sel.Name == "Name" {
+				specX = se.X
+				if inner, ok := ast.Unparen(se.X).(*ast.SelectorExpr); ok && inner.Sel.Name == "Name" {
+					specX = inner.X
+				}
+			}
+			if specX == nil {
+				return true
+			}
+			if _, tn := namedOf(info.TypeOf(specX)); tn != "ImportSpec" {
+				return true
+			}
+			var loop *ast.RangeStmt
+			ast.Inspect(fd.Body, func(m ast.Node) bool {
+				if r, ok := m.(*ast.RangeStmt); ok && r.Body.Pos() <= as.Pos() && as.End() <= r.Body.End() && strings.HasSuffix(types.ExprString(r.X), ".Specs") {
+					loop = r
+				}
+				return true
+			})
+			if loop == nil {
+				return true
+			}
+			if pc, okp := pathCond(c, loop.Body.List, as); okp {
+				stores = append(stores, nameStore{pc, c.ExprStr(specX) + ".Name", as})
+			}
+			return true
+		})
+		if len(stores) > 0 {
+			renames := false
+			for _, st := range stores {
+				if un, dec := unsatWith(orTrue(st.pc), st.nameExpr+" != nil"); dec && !un {
+					renames = true
+				}
+			}
+			e.Run.Check("R-ROLE", "updateImports: a spec that has an alias other than the chosen one is renamed", pos(stores[0].at), renames,
+				"every store that names an existing spec from aliases[…] runs only for a spec without a name: an alias given through FileRestorer.Alias (or made necessary by a clash) does not replace the alias written in the source")
+		}
+	}
 	// whatever the shape of the naming code: some store into aliases[…] hands the alias of the
 	// import on unchanged (that is how `.` and `_` survive)
 	plain := false
